@@ -6,6 +6,8 @@ def stages(tier):
          "timeout": 300, "timeout_thorough": 1800},
         {"name": "cfg", "cmd": "conf", "args": ["-prop", "C17"], "check": "Check.ConfigProp.check_cfg",
          "timeout": 300, "timeout_thorough": 1800},
+        {"name": "flags", "cmd": "conf", "args": ["-prop", "C17f"], "check": "Check.Flags.check_flags",
+         "timeout": 300, "timeout_thorough": 1800},
     ]
 
 TRUSTED = [
